@@ -226,7 +226,7 @@ func c20Run(t *engine.T, shard string) {
 				if f := c20EscapedHTML(h); f != nil {
 					return "", f
 				}
-				if f := c20EscapedJS(escapes.JSEscape(s)); f != nil {
+				if f := c20EscapedJS(CallStringFunc(escapes.JSEscape, s)); f != nil {
 					return "", f
 				}
 				ctx := plush.NewContext()
